@@ -318,3 +318,23 @@ Proof.
     + intros f k' Hf Hk'. eauto.
   - apply ops_chunks_from_kv. intros k' [].
 Qed.
+
+(* ---- the two steps together ---- *)
+(* a file scanned by the index build keeps every blob it has, whatever earlier sessions did *)
+Theorem purge_keeps_scanned : forall F n resume ops chunks blobs f, 0 < n -> consistent F ->
+  (forall g, In g (files_of ops) -> In g F) -> In f (files_of ops) ->
+  (forall k, In k (keys_of f) -> exists nw, In (k, nw) blobs) ->
+  forall k, In k (keys_of f) -> In k (delete_unused (index_of (last_session n resume ops chunks)) blobs).
+Proof.
+  intros F n resume ops chunks blobs f Hn Hc HF Hf Hb.
+  apply delete_unused_keeps_bundle. intros k Hk. destruct (Hb k Hk) as [nw Hnw]. exists nw. split; [exact Hnw|].
+  left. eapply index_complete; eauto.
+Qed.
+
+(* a file uploaded after the index was started - all of its blobs written or refreshed since - keeps
+   them whatever the index holds *)
+Theorem purge_keeps_newer : forall index blobs (ks : list string),
+  (forall k, In k ks -> In (k, true) blobs) -> forall k, In k ks -> In k (delete_unused index blobs).
+Proof.
+  intros index blobs ks H. apply delete_unused_keeps_bundle. intros k Hk. exists true. split; [now apply H|now right].
+Qed.
